@@ -1966,6 +1966,11 @@ int parse_instruction_68000(AsmContext *asm_context, char *instr)
               else
             {
               operands[operand_count].type = OPERAND_ADDRESS_W;
+              if (num < -32768)
+              {
+                print_error_range(asm_context, "Address", -32768, 0xffff);
+                return -1;
+              }
             }
 
             tokens_push(asm_context, token, token_type);
